@@ -28,7 +28,7 @@ Definition w_raw (d p : N) : option bytes :=
 
 Definition w_cfg (drv : list (N * Z)) (fmulti fb58 ffmt : Z) (cap : N) : config :=
   mkCfg drv w_val fmulti fb58 ffmt true [] cap (fun _ => cap) 0%N w_raw 2%N
-        [(1%N, (true, 0))] (fun _ => Some (1%N, true)).
+        [(1%N, (true, 0))] (fun _ => Some (1%N, true)) (fun k => Some (0%N, k)).
 
 Definition drv_default : list (N * Z) := [(0%N, 0); (1%N, 0); (2%N, 0); (3%N, 0)].
 Definition drv_eth10 : list (N * Z) := [(0%N, 0); (1%N, 0); (2%N, 10); (3%N, -1)].
